@@ -10,6 +10,8 @@
 //   reuse    call histories on ONE object: QR (factorize / compute / solve of changing shapes, orders), skyline_lu
 //            (operator() with unit / zero / leading-zero / random right-hand sides), detail::inverse with reused
 //            work buffers; every call compared bitwise with a fresh object and with the definition
+//   long     graphs with up to 70 000 BFS level sets (chains, strips, combs) through cuthill_mckee and skyline_lu
+//   smc      static_matrix with complex elements (Gaussian integers): adjoint, products, inner products, norm
 //   qr       detail::QR<double | complex | static_matrix>: factorize / Q / R / solve, both storage
 //            orders, shapes to 12x12, rank deficient / zero columns (class-O observations)
 // Verdicts are taken by TLC (spec/C16Trace.tla).
@@ -252,6 +254,8 @@ static void mode_inverse(uint64_t seed, bool th) {
 // ---------------------------------------------------------------- static matrix arithmetic
 template <class T, int N, int M> static std::vector<double> flat(const static_matrix<T, N, M> &x) { return std::vector<double>(x.buf.begin(), x.buf.end()); }
 static std::vector<double> flat(double x) { return std::vector<double>(1, x); }
+template <int N, int M> static std::vector<std::complex<double>> cflat(const static_matrix<std::complex<double>, N, M> &x) { return std::vector<std::complex<double>>(x.buf.begin(), x.buf.end()); }
+static std::vector<std::complex<double>> cflat(std::complex<double> x) { return std::vector<std::complex<double>>(1, x); }
 template <int N, int K, int M> static void sm_case(vr::rng &g, int vmax) {
     static_matrix<double, N, K> a, a2; static_matrix<double, K, M> b; static_matrix<double, N, N> sq, sq2;
     for (int k = 0; k < N * K; ++k) { a(k) = g.range(-vmax, vmax); a2(k) = g.range(-vmax, vmax); }
@@ -585,6 +589,92 @@ static void mode_reuse(uint64_t seed, bool th) {
     }
 }
 
+// ---------------------------------------------------------------- long thin graphs (mode long)
+// Graphs with hundreds to tens of thousands of BFS level sets (chains, narrow strips, combs): the level-set number
+// kept per node grows with the graph diameter.  Orderings are judged as permutations, skyline_lu on them through the
+// exact solution (integer xs, f = A xs exact; O(nnz) checks).  perm gets slack so that an overrun is seen, not fatal.
+static std::shared_ptr<crsd> long_graph(const std::string &fam, int len, vr::rng &g) {
+    std::vector<std::pair<int,int>> edges; int n = 0;
+    if (fam == "chain") { n = len; for (int i = 0; i + 1 < n; ++i) edges.push_back({i, i + 1}); }
+    else if (fam == "strip3") { n = len * 3; for (int i = 0; i < len; ++i) for (int j = 0; j < 3; ++j) { int k = i * 3 + j; if (j + 1 < 3) edges.push_back({k, k + 1}); if (i + 1 < len) edges.push_back({k, k + 3}); } }
+    else if (fam == "comb") { n = len * 4; for (int i = 0; i < len; ++i) { int k = i * 4; if (i + 1 < len) edges.push_back({k, k + 4}); for (int t = 0; t < 3; ++t) edges.push_back({k + t, k + t + 1}); } }
+    else if (fam == "twochains") { n = 2 * len; for (int i = 0; i + 1 < len; ++i) { edges.push_back({i, i + 1}); edges.push_back({len + i, len + i + 1}); } }
+    else if (fam == "square") { n = len * len; for (int i = 0; i < len; ++i) for (int j = 0; j < len; ++j) { int k = i * len + j; if (j + 1 < len) edges.push_back({k, k + 1}); if (i + 1 < len) edges.push_back({k, k + len}); } }
+    else /* chainmid: a chain whose numbering starts in the middle (node 0 has two neighbours) */ { n = len; std::vector<int> id(n); int h = n / 2; for (int i = 0; i < n; ++i) id[i] = (i >= h) ? i - h : n - 1 - i; for (int i = 0; i + 1 < n; ++i) edges.push_back({id[i], id[i + 1]}); }
+    std::vector<std::vector<std::pair<int,double>>> rows(n);
+    for (auto &e : edges) { int w = g.range(1, 3); rows[e.first].push_back({e.second, -(double)w}); rows[e.second].push_back({e.first, -(double)(g.coin(0.3) ? w : g.range(1, 3))}); }
+    for (int i = 0; i < n; ++i) { double sa = 0; for (auto &e : rows[i]) sa += std::fabs(e.second); rows[i].push_back({i, sa + 1}); std::sort(rows[i].begin(), rows[i].end()); }
+    return vr::from_rows(n, n, rows);
+}
+static bool is_perm(const int *p, int n) { std::vector<char> seen(n, 0); for (int i = 0; i < n; ++i) { if (p[i] < 0 || p[i] >= n || seen[p[i]]) return false; seen[p[i]] = 1; } return true; }
+template <bool rev> static void long_case(const std::string &fam, int len, vr::rng &g, bool with_sky) {
+    auto A = long_graph(fam, len, g); const int n = A->nrows;
+    {
+        std::vector<int> perm(2 * n + 16, -7);
+        vr::obj o; o.str("k", "cmlong").str("fam", fam).i("n", n).b("rev", rev);
+        try { reorder::cuthill_mckee<rev>::get(*A, perm);
+              bool slack = true; for (size_t k = n; k < perm.size(); ++k) if (perm[k] != -7) slack = false;
+              o.i("exc", 0).b("permok", is_perm(perm.data(), n)).b("noverrun", slack);
+              if (n <= 1300) o.ints("perm", perm.begin(), perm.begin() + n); else o.raw("perm", "[]"); }
+        catch (const std::exception &e) { o.i("exc", 1).str("what", e.what()).b("permok", false).b("noverrun", true).raw("perm", "[]"); }
+        put(o);
+    }
+    if (!with_sky) return;
+    std::vector<double> xs(n), f(n, 0.0), x(n, 0.0);
+    for (auto &v : xs) v = g.range(-3, 3);
+    for (int i = 0; i < n; ++i) for (ptrdiff_t p = A->ptr[i]; p < A->ptr[i+1]; ++p) f[i] += A->val[p] * xs[A->col[p]];
+    vr::obj o; o.str("k", "skylong").str("fam", fam).i("n", n).b("rev", rev);
+    try {
+        solver::skyline_lu<double, reorder::cuthill_mckee<rev>> S(*A); S(f, x);
+        ld res = 0, fn = 0, err = 0, xn = 1; bool fin = true;
+        for (int i = 0; i < n; ++i) { ld r = -(ld)f[i]; for (ptrdiff_t p = A->ptr[i]; p < A->ptr[i+1]; ++p) r += (ld)A->val[p] * x[A->col[p]]; res = vd::amax(res, std::fabs(r)); fn = std::max(fn, (ld)std::fabs(f[i]));
+            err = vd::amax(err, std::fabs((ld)x[i] - xs[i])); xn = std::max(xn, (ld)std::fabs(xs[i])); if (!std::isfinite(x[i])) fin = false; }
+        o.i("exc", 0).b("permok", is_perm(S.perm.data(), n)).b("finite", fin).i("res", md(res / std::max((ld)1, fn))).i("err", md(err / xn));
+    } catch (const std::exception &e) { o.i("exc", 1).str("what", e.what()).b("permok", false).b("finite", false).i("res", 30000).i("err", 30000); }
+    put(o);
+}
+static void mode_long(uint64_t seed, bool th) {
+    vr::rng g(seed + 1711);
+    struct { const char *fam; int len; bool sky; } cases[] = {
+        {"chain", 250, true}, {"chain", 257, true}, {"chain", 300, true}, {"chain", 1000, true}, {"chain", 70000, false},
+        {"strip3", 400, true}, {"comb", 300, true}, {"twochains", 400, true}, {"chainmid", 600, true}, {"chainmid", 1100, true}, {"square", 20, true},
+        {"chain", 513, true}, {"strip3", 90, true}};
+    for (auto &c : cases) { long_case<false>(c.fam, c.len, g, c.sky); long_case<true>(c.fam, c.len, g, c.sky); }
+    int extra = th ? 12 : 3;
+    for (int r = 0; r < extra; ++r) { int len = g.range(258, th ? 3000 : 900); const char *fams[4] = {"chain", "chainmid", "comb", "strip3"}; const char *fam = fams[g.below(4)];
+        if (std::string(fam) == "strip3" || std::string(fam) == "comb") len = std::max(260, len / 3);
+        long_case<false>(fam, len, g, true); long_case<true>(fam, len, g, true); }
+}
+
+// ---------------------------------------------------------------- static_matrix with complex elements (Gaussian integers)
+template <int N, int K, int M> static void smc_case(vr::rng &g, int vmax) {
+    typedef std::complex<double> C;
+    static_matrix<C, N, K> a, a2; static_matrix<C, K, M> b; static_matrix<C, K, 1> u; static_matrix<C, N, 1> v;
+    auto rc = [&]() { return C(g.range(-vmax, vmax), g.range(-vmax, vmax)); };
+    for (int k = 0; k < N * K; ++k) { a(k) = rc(); a2(k) = rc(); } for (int k = 0; k < K * M; ++k) b(k) = rc();
+    for (int k = 0; k < K; ++k) u(k) = rc(); for (int k = 0; k < N; ++k) v(k) = rc();
+    auto adj = math::adjoint(a); auto mulr = a * b; auto adjmul = math::adjoint(mulr);
+    auto inn = math::inner_product(a, a2);                       // K x K (a scalar for K = 1)
+    C axv = math::inner_product(a * u, v);                       // <A u, v>
+    C uahv = math::inner_product(u, adj * v);                    // <u, A^H v>
+    auto aha = adj * a; C tr = 0; for (int i = 0; i < K; ++i) tr += aha(i, i);
+    double nrm = math::norm(a);
+    auto parts = [](const C *p, int n, bool im) { std::vector<double> r(n); for (int i = 0; i < n; ++i) r[i] = im ? p[i].imag() : p[i].real(); return r; };
+    vr::obj o; o.str("k", "smc").i("N", N).i("K", K).i("M", M);
+    #define CPL(name, ptr, n) o.dbls(name "_re", parts(ptr, n, false)).dbls(name "_im", parts(ptr, n, true))
+    CPL("a", a.data(), N * K); CPL("a2", a2.data(), N * K); CPL("b", b.data(), K * M); CPL("u", u.data(), K); CPL("v", v.data(), N);
+    CPL("adj", adj.data(), N * K); CPL("mul", mulr.data(), N * M); CPL("adjmul", adjmul.data(), N * M);
+    { std::vector<C> iv = cflat(inn); CPL("inner", iv.data(), (int)iv.size()); }
+    CPL("axv", &axv, 1); CPL("uahv", &uahv, 1); CPL("tr", &tr, 1);
+    #undef CPL
+    o.d("norm2", std::rint(nrm * nrm)).b("normok", std::fabs(nrm * nrm - std::rint(nrm * nrm)) < 1e-9);
+    put(o);
+}
+static void mode_smc(uint64_t seed, bool th) {
+    vr::rng g(seed + 1722); int reps = th ? 400 : 80;
+    for (int r = 0; r < reps; ++r) { smc_case<2,2,2>(g, 3); smc_case<3,3,3>(g, 2); smc_case<2,3,2>(g, 3); smc_case<3,2,4>(g, 3); smc_case<1,1,1>(g, 9); smc_case<4,1,1>(g, 3); smc_case<3,1,2>(g, 3); smc_case<4,4,1>(g, 2); smc_case<1,3,1>(g, 3); }
+}
+
 int main(int argc, char **argv) {
     vr::install_terminate();
     std::string mode = argc > 1 ? argv[1] : "small";
@@ -595,6 +685,8 @@ int main(int argc, char **argv) {
     else if (mode == "sm") mode_sm(seed, th);
     else if (mode == "qr") mode_qr(seed, th);
     else if (mode == "reuse") mode_reuse(seed, th);
+    else if (mode == "long") mode_long(seed, th);
+    else if (mode == "smc") mode_smc(seed, th);
     vr::obj o; o.str("e", "End"); vr::emit(o.done());
     return 0;
 }
